@@ -28,7 +28,7 @@ META = {
                    "Mesh.__init__ (settings changed since the equilibrium was created are refused), finiteness of DDX at all four locations.",
     "bounds": "as in the properties the obligations are shared with; makeConnection: two regions with symbolic nx; option loop: 3 option keys with symbolic values",
     "out": "'the shipped examples and reference settings generate', 'every documented variable present with the documented shape', 'no cell folded over', option validation inside the "
-           "third-party optionsfactory package, the unused-option filter of the command-line scripts (I/O and whole-pipeline facts). This check covers ONLY the guard contracts.",
+           "third-party optionsfactory package (I/O and whole-pipeline facts). This check covers the guard contracts and the option filter of the command-line scripts.",
     "assumptions": ["as in C02, C05, C06, C09, C10"],
 }
 
@@ -69,13 +69,17 @@ def ob_makeconnection(env):
 def ob_option_consistency(env):
     """Mesh.__init__: returns (past the loop) => every option common to equilibrium and mesh has the same value"""
     fn, info = slices.slice_function(mesh_mod.Mesh.__init__, lambda n: isinstance(n, ast.For) and "self.equilibrium.user_options" in ast.unparse(n.iter),
-                                     lambda n: isinstance(n, ast.Expr) and "as_table" in ast.unparse(n), ["self"], mesh_mod.__dict__, name="init_option_check")
+                                     lambda n: isinstance(n, ast.Expr) and "as_table" in ast.unparse(n), ["self", "equilibrium", "settings"], mesh_mod.__dict__, name="init_option_check")
     keys = ["a", "b", "c"]
     ev = {k: env.int("eq_" + k, lo=0, hi=3) for k in keys}
     mv = {k: env.int("mesh_" + k, lo=0, hi=3) for k in keys[:2]}  # key 'c' only exists on the equilibrium
     me = types.SimpleNamespace(equilibrium=types.SimpleNamespace(user_options=ev), user_options=mv)
+    # the dict the caller passed: any subset of the mesh options may have been given explicitly (the others took their defaults)
+    given = [k for k in keys[:2] if env.choose(2)]
+    env.tag("explicit=%s" % ",".join(given))
+    settings = {k: mv[k] for k in given}
     try:
-        fn(me)
+        fn(me, me.equilibrium, settings)
     except ValueError:
         env.tag("refused")
         env.claim("refused_only_if_a_common_option_differs", (ev["a"] != mv["a"]) | (ev["b"] != mv["b"]) if env.mode == "sym" else (ev["a"] != mv["a"] or ev["b"] != mv["b"]))
@@ -85,6 +89,92 @@ def ob_option_consistency(env):
     env.claim("accepted_only_if_common_options_equal", (ev["a"] == mv["a"]) & (ev["b"] == mv["b"]) if env.mode == "sym" else (ev["a"] == mv["a"] and ev["b"] == mv["b"]))
 
 
+# ---------------------------------------------------------------------------------------------
+# command-line scripts: the "options in the input file that are not used" filter
+
+import importlib  # noqa: E402
+import inspect    # noqa: E402
+import os         # noqa: E402
+import textwrap   # noqa: E402
+
+REPO = os.path.dirname(os.path.dirname(os.path.abspath(eqm.__file__)))
+REPO = os.path.dirname(REPO)
+
+
+def script_filter_slice(modname):
+    """(fn(options) -> None or raises, keys main() reads from `options` after the filter, info): the statements of main() from
+    `possible_options = ...` to the `raise ValueError` of the unused-options filter, with main's own local imports executed first"""
+    mod = importlib.import_module(modname)
+    src = textwrap.dedent(inspect.getsource(mod.main))
+    fn = ast.parse(src).body[0]
+    body = fn.body
+    i0 = next(i for i, n in enumerate(body) if isinstance(n, ast.Assign) and getattr(n.targets[0], "id", None) == "possible_options")
+    i1 = next(i for i, n in enumerate(body) if i > i0 and isinstance(n, ast.If) and "unused_options" in ast.unparse(n.test))
+    imports = []
+    for n in body[:i0]:
+        if isinstance(n, ast.ImportFrom) and n.level > 0:
+            pkg = modname.rsplit(".", n.level)[0]
+            imports.append(ast.ImportFrom(module=pkg + ("." + n.module if n.module else ""), names=n.names, level=0))
+    f2 = ast.FunctionDef(name="option_filter", args=ast.arguments(posonlyargs=[], args=[ast.arg("options")], kwonlyargs=[], kw_defaults=[], defaults=[]),
+                         body=imports + body[i0:i1 + 1], decorator_list=[], returns=None, type_comment=None, type_params=[])
+    m = ast.Module(body=[f2], type_ignores=[])
+    ast.fix_missing_locations(m)
+    ns = dict(mod.__dict__)
+    exec(compile(m, "<%s unused-option filter>" % modname, "exec"), ns)
+    read = set()
+    for n in ast.walk(fn):
+        if isinstance(n, ast.Call) and isinstance(n.func, ast.Attribute) and n.func.attr == "get" and getattr(n.func.value, "id", None) == "options" \
+                and n.args and isinstance(n.args[0], ast.Constant) and isinstance(n.args[0].value, str):
+            read.add(n.args[0].value)
+        if isinstance(n, ast.Subscript) and getattr(n.value, "id", None) == "options" and isinstance(n.slice, ast.Constant) and isinstance(n.slice.value, str):
+            read.add(n.slice.value)
+    return ns["option_filter"], sorted(read), {"function": modname + ":main[unused-option filter]", "reads": sorted(read)}
+
+
+SHIPPED = {"hypnotoad.scripts.hypnotoad_geqdsk": ["geqdsk_cdn.yaml", "geqdsk_ldn.yaml", "examples/tokamak/single-null.yaml", "examples/tokamak/connected-double-null.yaml",
+                                                  "examples/tokamak/disconnected-double-null.yaml"],
+           "hypnotoad.scripts.hypnotoad_circular": []}
+
+
+def _mk_script_filter(modname):
+    def body(env):
+        filt, read, info = script_filter_slice(modname)
+        if not read:
+            raise core.HarnessError("no option reads found in %s.main" % modname)
+        k = env.symstr("option_key", default=read[0])
+        try:
+            filt({k: 1})
+        except ValueError:
+            env.tag("rejected")
+            # an option that main() itself reads later on must not be rejected as 'not used'
+            is_read = core.SymBool(z3.Or(*[k.e == z3.StringVal(r) for r in read])) if env.mode == "sym" else (k in read)
+            env.claim("rejected_option_is_not_one_the_script_reads", ~is_read if env.mode == "sym" else not is_read)
+        else:
+            env.tag("accepted")
+            env.witness("accepted")
+        # the shipped reference settings pass the filter (necessary for 'shipped reference settings generate'); concrete dictionaries
+        import yaml
+        for rel in SHIPPED[modname]:
+            path = os.path.join(REPO, rel)
+            if not os.path.exists(path):
+                continue
+            with open(path) as fh:
+                opts = yaml.safe_load(fh) or {}
+            try:
+                filt(dict(opts))
+                ok = True
+            except ValueError:
+                ok = False
+            env.claim("shipped_settings_pass_the_option_filter:" + rel, ok)
+    return body
+
+
+for _m in ("hypnotoad.scripts.hypnotoad_geqdsk", "hypnotoad.scripts.hypnotoad_circular"):
+    OBLIGATIONS.append(Ob("script_option_filter_" + _m.rsplit("_", 1)[1], _mk_script_filter(_m), tier="quick", family="option guards", encodes=[_m + ":main"],
+                          desc="the 'options that are not used' filter of the command-line entry point never rejects an option that the entry point itself reads "
+                               "(symbolic option name, z3 strings); the shipped reference settings pass the filter",
+                          stubs=["argument parsing, file I/O and grid generation are not executed (AST slice of the filter only)"],
+                          bounds="one option key, any string"))
 OBLIGATIONS.append(Ob("makeConnection_guards", ob_makeconnection, tier="quick", family="topology guards", encodes=["hypnotoad.core.equilibrium:Equilibrium.makeConnection"],
                       desc="nx mismatch, double connection and unordered region container are refused; an accepted connection is recorded on both regions", bounds="nx in 1..9 symbolic"))
 OBLIGATIONS.append(Ob("mesh_option_consistency_guard", ob_option_consistency, tier="quick", family="option guards", encodes=["hypnotoad.core.mesh:Mesh.__init__"],
